@@ -428,3 +428,14 @@ func HarnessC08EncodingNameCase() {
 	check(code == int(CodeUnimplemented), "an encoding name that differs from a registered one in letter case is rejected as unimplemented")
 	check(userCalls == 0, "user code does not run when the request compression is unsupported")
 }
+
+// HarnessC08ClientRequests: the client side of "messages below the configured
+// minimum size go uncompressed": the requests a real client writes (unary and
+// client stream, 3 protocols, send-compression on/off, symbolic
+// compress-min-bytes and payload; the program of C05's client-wire harness)
+// are compressed exactly from the minimum size on.
+//
+//verif:harness property=C08 stubs=json,wire shard=proto:3
+func HarnessC08ClientRequests() {
+	c05ClientWire()
+}
